@@ -24,7 +24,8 @@ from .core import Check
 from .frames import enc_bounds
 from .tlc import run_tlc, validate_trace
 
-BOXES = [(0, 0, 100, 100), (3, 3, 3, 3), (5, 0, 9, 40), (9, 40, 5, 0), (-50, -50, -40, -40), (0, 0, 4, 0), (12, 12, 40, 13), (2, 2, 2, 9)]
+# (corner orders: normal, both axes reversed, only y reversed, only x reversed)
+BOXES = [(0, 0, 100, 100), (3, 3, 3, 3), (5, 0, 9, 40), (9, 40, 5, 0), (5, 40, 9, 0), (30, 0, 10, 12), (-50, -50, -40, -40), (0, 0, 4, 0), (12, 12, 40, 13), (2, 2, 2, 9)]
 
 
 def frame(rng, n):
@@ -145,7 +146,7 @@ def run(tier: str, seed: int) -> int:
                                 act = g or "west_east"
                                 rec_act = rows_of(full._partition_bounds[act])
                                 part_ids = [tuple(p["id"]) for p in loaded]
-                                for B in (BOXES[: 4] if quick else BOXES):
+                                for B in (BOXES[: 6] if quick else BOXES):
                                     pr = read_parquet_dask(ptharg, geometry=g, bounds=B)
                                     got_parts = [tuple(pr.get_partition(k).compute()["id"]) for k in range(pr.npartitions)]
                                     got_parts = [t for t in got_parts if t or pr.npartitions > 1 or True]
